@@ -1,7 +1,7 @@
 (* Real-number lemmas for M_tri.v (C15). *)
 From Coq Require Import ZArith Reals Lra Psatz List Bool Lia Nsatz.
 From PW Require Import Num NumR Vec NpList Result.
-From PW.model Require Import M_tri.
+From PW.model Require Import M_tri M_tri_spec.
 From PW.proofs Require Import P_vec P_nplist.
 Import ListNotations.
 Local Open Scope R_scope.
@@ -10,9 +10,6 @@ Ltac tunf :=
   unfold surface_normal_raw, surface_area, tri_cross, same_side_value, bary, bary_combine, spacing1, nfrac;
   cbn [ta tb tc]; vunf.
 
-Definition nondegenerate (t : tri R) : Prop := tri_cross ROps t <> V3 0 0 0.
-Definition tri_translate (d : vec3 R) (t : tri R) : tri R :=
-  Tri (vadd ROps (ta t) d) (vadd ROps (tb t) d) (vadd ROps (tc t) d).
 
 (* ---- normals and areas --------------------------------------------------------------------- *)
 Lemma normal_raw_is_cross t :
@@ -75,7 +72,6 @@ Proof. intros H. unfold surface_normal_unit, surface_area, surface_normal_raw. r
 
 Lemma vnorm_neg n : vnorm ROps (vneg ROps n) = vnorm ROps n.
 Proof. destruct n. unfold vnorm. f_equal. vunf. ring. Qed.
-Definition oneg (o : option (vec3 R)) : option (vec3 R) := option_map (vneg ROps) o.
 Lemma normal_unit_of_neg_cross t t' : tri_cross ROps t' = vneg ROps (tri_cross ROps t) ->
   surface_normal_unit ROps t' = oneg (surface_normal_unit ROps t) /\ surface_area ROps t' = surface_area ROps t /\
   surface_normal_raw ROps t' = vneg ROps (surface_normal_raw ROps t).
@@ -112,12 +108,10 @@ Proof.
 Qed.
 
 (* ---- barycentric weights ------------------------------------------------------------------------ *)
-Definition vsum3 (w : vec3 R) : R := vx w + vy w + vz w.
 Lemma bary_sum_one t p : vsum3 (bary ROps t p) = 1.
 Proof. unfold vsum3, bary. cbn [vx vy vz]. unfold n1; rops. ring. Qed.
 
 (* squared length of the un-normalised normal *)
-Definition cross2 (t : tri R) : R := vnorm2 ROps (tri_cross ROps t).
 Lemma cross2_pos t : nondegenerate t -> 0 < cross2 t.
 Proof.
   intros H. unfold cross2. pose proof (vnorm2_nonneg (tri_cross ROps t)) as Hn.
@@ -126,9 +120,6 @@ Proof.
 Qed.
 
 (* orthogonal projection of p onto the plane of t (through ta t with normal tri_cross t) *)
-Definition plane_projection (t : tri R) (p : vec3 R) : vec3 R :=
-  let n := tri_cross ROps t in
-  vsub ROps p (vscale ROps (vdot ROps (vsub ROps p (ta t)) n / cross2 t) n).
 
 (* the weights with the guard resolved: explicit quotients by s = |n|^2 *)
 Lemma bary_nondegenerate t p : nondegenerate t ->
@@ -157,7 +148,6 @@ Proof.
   apply V3_ext; nsatz.
 Qed.
 
-Definition coplanar (t : tri R) (p : vec3 R) : Prop := vdot ROps (vsub ROps p (ta t)) (tri_cross ROps t) = 0.
 Lemma plane_projection_coplanar t p : nondegenerate t -> coplanar t (plane_projection t p).
 Proof.
   intros H. pose proof (cross2_pos t H) as Hp. unfold coplanar, plane_projection.
@@ -214,9 +204,6 @@ Proof.
 Qed.
 
 (* ---- sampling ---------------------------------------------------------------------------------------- *)
-Definition in_tri (t : tri R) (x : vec3 R) : Prop :=
-  exists w : vec3 R, 0 <= vx w /\ 0 <= vy w /\ 0 <= vz w /\ vsum3 w = 1 /\ x = bary_combine ROps t w.
-Definition unit_draw (ab : R * R) : Prop := 0 <= fst ab <= 1 /\ 0 <= snd ab <= 1.
 
 Lemma reflect_coeffs_spec ab : unit_draw ab ->
   let c := reflect_coeffs ROps ab in 0 <= fst c /\ 0 <= snd c /\ fst c + snd c <= 1.
@@ -233,9 +220,6 @@ Proof.
 Qed.
 
 (* partial sums of the weights *)
-Fixpoint Rsum (l : list R) : R := match l with [] => 0 | x :: r => x + Rsum r end.
-Definition psum (ws : list R) (i : nat) : R := Rsum (firstn i ws).
-Definition nonneg_weights (ws : list R) : Prop := Forall (fun w => 0 <= w) ws.
 
 Lemma last_cumsum_from r : forall acc w d, last (cumsum_from ROps acc (w :: r)) d = acc + w + Rsum r.
 Proof.
@@ -557,3 +541,40 @@ Lemma edges_each_once_all (nz : bool) fs :
     nth_error (edges_of_faces nz fs) (3 * i + 1) = Some (g (f1 f, f2 f)) /\
     nth_error (edges_of_faces nz fs) (3 * i + 2) = Some (g (f2 f, f0 f)).
 Proof. split; [apply edges_of_faces_length|]. intros i f H. exact (edges_each_once nz fs i f H). Qed.
+
+(* ---- sample succeeds on the property's domain -------------------------------------------------------------------- *)
+Lemma sample_all_succeeds ts ws : length ws = length ts -> nonneg_weights ws -> 0 < Rsum ws ->
+  forall us abs, face_draws us -> length us = length abs ->
+  exists l, sample_all ROps ts ws us abs = Ok l /\ length l = length us.
+Proof.
+  intros Hl Hw HT. induction us as [|u ur IH]; intros [|ab abr] Hu Hlen; cbn [length] in Hlen; try discriminate.
+  - exists []. split; reflexivity.
+  - inversion Hu as [|? ? Hu0 Hur]; subst. destruct (IH abr Hur ltac:(lia)) as (l & El & Ll).
+    destruct (face_choice_spec ws u Hw HT Hu0) as (Hi & _). cbv zeta in Hi.
+    cbn [sample_all]. unfold sample_one.
+    destruct (nth_error ts (face_choice ROps ws u)) as [t|] eqn:E; [|apply nth_error_None in E; lia].
+    rewrite El. cbn [cons_res]. eexists. split; [reflexivity|]. cbn [length]. lia.
+Qed.
+(* with supplied weights, and with the default area weights (at least one triangle of non-zero area) *)
+Lemma sample_succeeds ts us abs : ts <> [] -> face_draws us -> length us = length abs ->
+  (forall ws, length ws = length ts -> nonneg_weights ws -> 0 < Rsum ws ->
+     exists l, sample ROps ts (Some ws) us abs = Ok l /\ length l = length us) /\
+  (Exists nondegenerate ts -> exists l, sample ROps ts None us abs = Ok l /\ length l = length us).
+Proof.
+  intros Hne Hu Hlen. destruct ts as [|t0 tr]; [contradiction|]. split.
+  - intros ws Hl Hw HT. unfold sample. apply sample_all_succeeds; assumption.
+  - intros He. unfold sample. destruct (area_weights_admissible (t0 :: tr)) as [Hw HT].
+    apply sample_all_succeeds; try assumption; [unfold surface_areas; apply map_length|apply HT, He].
+Qed.
+
+(* ---- barycentric weights on integer arrays ------------------------------------------------------------------------- *)
+Lemma bary_intarray_spec t p :
+  (nondegenerate t -> bary_intarray ROps t p = Some (bary ROps t p)) /\
+  (~ nondegenerate t -> bary_intarray ROps t p = None).
+Proof.
+  unfold bary_intarray, n0; rops. split; intros H.
+  - pose proof (cross2_pos t H) as Hp. unfold cross2, vnorm2 in Hp.
+    destruct (Reqb_spec (vdot ROps (tri_cross ROps t) (tri_cross ROps t)) 0); [lra|reflexivity].
+  - destruct (Reqb_spec (vdot ROps (tri_cross ROps t) (tri_cross ROps t)) 0) as [E|E]; [reflexivity|].
+    exfalso. apply H. intros Hz. apply E. rewrite Hz. vunf. ring.
+Qed.
